@@ -39,7 +39,9 @@ LEVEL_NOTE = ("The A* search itself IS modelled (Model/AStar.lean: node = (verte
               "scenes on which that rule keeps an optimal route (scene-dirs-src) are strict; scenes where it provably "
               "discards every optimal route (scene-dirs-src-lossy) and target-restricted scenes (scene-dirs-dst; both "
               "under the legacy tag scene-dirs until known_findings.json names the new tags) are known findings.")
-TECHNIQUE = ("Lean 4 theorems (finite sign/direction case split + linear arithmetic; potential argument) + "
+TECHNIQUE = ("Lean 4 theorems (finite sign/direction case split + linear arithmetic; potential argument; loop invariants of "
+             "the A* search with closed list: soundness, optimality under consistency; kernel-evaluated witnesses on "
+             "libavoid's own graphs) + "
              "certificate checking (Hanan-grid potential, exact Rat) + correspondence harness calling the real "
              "bends()/estimatedCostSpecific()/Router")
 RULE = ("case 0: exhaustive bends() over offsets {-2..2}^2 minus origin x 4 x 4 directions + direction helpers; "
@@ -58,7 +60,8 @@ RULE = ("case 0: exhaustive bends() over offsets {-2..2}^2 minus origin x 4 x 4 
         "edges in one direction); class astar-kernels: cost() on random point triples (orthogonal connector, penalties "
         "0/0.75/2.5/10/50/200, reverseDirectionPenalty) and ANodeCmp on (f, timeStamp) pairs around 1e-7, called directly")
 TRUSTED_BASE = ["Lean 4.33 kernel", "axioms: propext, Classical.choice, Quot.sound",
-                "cpp2lean translator + clang AST (bends() and direction helpers regenerated each run, bridge lemmas to the model; cross-checked by the correspondence)",
+                "cpp2lean translator + clang AST (bends(), direction helpers, estimatedCostSpecific, ANodeCmp, orthogTurnOrder, Dot, CrossLength regenerated each run, bridge lemmas to the model; cross-checked by the correspondence)",
+                "hand model of cost() (atan2-based bend classification), of the search loop and of the pathNext read-back: tied by exact correspondence only (route() = model route on every scene; cost() and ANodeCmp called directly)",
                 "harness (scene generator, line writer) + hex-float import",
                 "Lean compiler for the driver (Check.Hanan.checkCert, Model.Bends, Model.AStar run compiled)",
                 "Hanan-grid fact: some optimal orthogonal path lies on the grid of obstacle sides and endpoint coordinates",
